@@ -36,7 +36,7 @@ ASSUMPTIONS = OC.STUBS + [
     "weakening only the solver's own limit test is not a violation as long as the merit function's check_limits raises and solve() restores (the property is about accepted iterates)",
 ]
 BOUNDS = {
-    "quick": "kernel: _clip_to_max_steps for 2 and 3 knobs; solve()/step() with knobs x targets in {1x1, 2x1, 1x2}, one step, max_step on; one knob / one target disabled persistently or through "
+    "quick": "a disabled target may carry rarely used options (optimize_log=True); kernel: _clip_to_max_steps for 2 and 3 knobs; solve()/step() with knobs x targets in {1x1, 2x1, 1x2}, one step, max_step on; one knob / one target disabled persistently or through "
              "step(disable_vary= / disable_vary_name= / disable_target= / enable_*=); scenario step(); disable(vary); <hand change | reload(0)>; step() on 2x1",
     "thorough": "adds 2x2, two steps, n_bisections=1, symbolic weights for the limit clause",
 }
@@ -278,6 +278,8 @@ def _base():
         {"tag": "1x2", "nk": 1, "nt": 2, "call": "step", "disable": ["target", 0], "how": "persistent"},
         {"tag": "1x2", "nk": 1, "nt": 2, "call": "step", "disable": ["target", 1], "how": "step_arg"},
         {"tag": "1x2", "nk": 1, "nt": 2, "call": "step", "enable_arg": ["target", 1]},
+        {"tag": "1x2", "nk": 1, "nt": 2, "call": "step", "disable": ["target", 1], "how": "persistent", "optimize_log": [1]},
+        {"tag": "1x2", "nk": 1, "nt": 2, "call": "step", "disable": ["target", 0], "how": "step_arg", "optimize_log": [0]},
         {"tag": "scen", "nk": 2, "nt": 1, "scenario": "hand"},
     ]
     return cs
